@@ -87,7 +87,8 @@ def run(P: Program, R: Report, tier: str) -> None:
                             idx = [i for i, x in enumerate(lp.target.elts) if isinstance(x, ast.Name) and x.id == cn][0]
                             it = lp.iter
                             if isinstance(it, ast.Name):
-                                dd = [a_ for a_ in ast.walk(f.node) if isinstance(a_, ast.Assign) and norm(a_.targets[0]) == it.id]
+                                dd = [a_ for a_ in ast.walk(f.node) if (isinstance(a_, ast.Assign) and norm(a_.targets[0]) == it.id)
+                                      or (isinstance(a_, ast.AnnAssign) and a_.value is not None and norm(a_.target) == it.id)]
                                 if len(dd) == 1:
                                     it = dd[0].value
                                 else:
